@@ -14,6 +14,7 @@ TRUSTED = [
     "R32: synchronous reading (async / .await removed)",
     "the file system as an oracle: get_files_from_dir / zone_from_file / hosts_from_file are stand-ins whose results are functions of the path (one consistent snapshot per load)",
     "Zones::new / insert_merge, Hosts::default / merge, Zone::from(Hosts): stand-ins that log their arguments in order (their meaning: unit zone_merge)",
+    "get_files_from_dir (module `listing` of the generated unit): tokio::fs::read_dir / next_entry / DirEntry::path as stand-ins over an oracle sequence of entries, Path::is_dir as an uninterpreted predicate, `out.sort()` as a sorted rearrangement (R44)",
     "R42: `Vec::from(slice)` as a shim with the same sequence; `Path::new(p)` dropped (the stand-ins take the PathBuf); R43: `hosts.into()` as shim_hosts_into_zone(hosts)",
 ]
 
@@ -81,6 +82,158 @@ pub open spec fn hosts_loaded(paths: Seq<PathBuf>, k: int) -> Seq<HostsFile>
 { if k <= 0 { Seq::<HostsFile>::empty() } else { match hosts_of(paths[k - 1]) { Some(z) => hosts_loaded(paths, k - 1).push(z), None => hosts_loaded(paths, k - 1) } } }
 """
 
+DIR_STANDINS = """
+// ---- reading a directory (tokio::fs::read_dir): the entries come in some order, reading may fail at any point
+pub struct Path { p: u8 }
+pub struct DirEntry { pub e: PathBuf }
+pub struct ReadDir { pub rest: Ghost<Seq<PathBuf>>, pub taken: Ghost<Seq<PathBuf>> }
+pub uninterp spec fn dir_entries(d: &Path) -> Seq<PathBuf>;     // every entry of the directory (files, links, sub-directories)
+pub uninterp spec fn is_dir_spec(p: PathBuf) -> bool;
+#[verifier::external_body]
+fn read_dir(dir: &Path) -> (r: Result<ReadDir, IoError>)
+    ensures r is Ok ==> r->Ok_0.rest@ == dir_entries(dir) && r->Ok_0.taken@ == Seq::<PathBuf>::empty(),
+{ unimplemented!() }
+impl ReadDir {
+    #[verifier::external_body]
+    fn next_entry(&mut self) -> (r: Result<Option<DirEntry>, IoError>)
+        ensures r is Ok && r->Ok_0 is Some ==> old(self).rest@.len() > 0 && r->Ok_0->Some_0.e == old(self).rest@[0] && final(self).rest@ == old(self).rest@.subrange(1, old(self).rest@.len() as int)
+                    && final(self).taken@ == old(self).taken@.push(old(self).rest@[0]),
+                r is Ok && r->Ok_0 is None ==> old(self).rest@.len() == 0 && final(self).rest@ == old(self).rest@ && final(self).taken@ == old(self).taken@,
+    { unimplemented!() }
+}
+impl DirEntry {
+    #[verifier::external_body]
+    fn path(&self) -> (r: PathBuf) ensures r == self.e { unimplemented!() }
+}
+#[verifier::external_body]
+fn shim_path_is_dir(p: &PathBuf) -> (r: bool) ensures r == is_dir_spec(*p) { p.is_dir() }
+// `out.sort()`: a sorted rearrangement of the same paths
+pub uninterp spec fn paths_sorted(s: Seq<PathBuf>) -> bool;
+#[verifier::external_body]
+fn shim_sort_paths(v: &mut Vec<PathBuf>)
+    ensures paths_sorted(final(v)@), forall|p: PathBuf| final(v)@.contains(p) <==> old(v)@.contains(p), final(v)@.len() == old(v)@.len(),
+{ v.sort() }
+"""
+
+DIR_SPEC = {
+    "props": ["C19", "C12"],
+    "header_rewrites": [("R32", r"\basync fn\b", "fn"), ("R9", r"io::Result<Vec<PathBuf>>", "Result<Vec<PathBuf>, IoError>")],
+    "rewrites": [("R32", r"\s*\.await\b", ""), ("R44", r"!path\.is_dir\(\)", "!shim_path_is_dir(&path)"), ("R44", r"out\.sort\(\);", "shim_sort_paths(&mut out);"), ("R24", None)],
+    "contract": """    ensures
+        // C19 / C12: every entry of the directory that is not itself a directory is listed (so that an unreadable one makes the load fail), nothing else is, in sorted order
+        r is Ok ==> forall|p: PathBuf| r->Ok_0@.contains(p) <==> (dir_entries(dir).contains(p) && !is_dir_spec(p)), // [C19:every_file_of_a_configured_directory_is_loaded_or_the_load_fails]
+        r is Ok ==> paths_sorted(r->Ok_0@), // [C12:directory_files_applied_in_sorted_order]""",
+    "loops": {"0": {"kw": "while", "spec": """        invariant
+            reader.taken@ + reader.rest@ == dir_entries(dir), tk__ == reader.taken@,
+            forall|p: PathBuf| #[trigger] out@.contains(p) ==> reader.taken@.contains(p) && !is_dir_spec(p),
+            forall|p: PathBuf| #[trigger] reader.taken@.contains(p) && !is_dir_spec(p) ==> out@.contains(p),
+        ensures reader.rest@.len() == 0,
+        decreases reader.rest@.len(),
+""", "entry": "let ghost out0__ = out@;"}},
+    "anchors": [{"after": "while let Some(entry)", "at": "before", "proof": "let ghost mut tk__ = reader.taken@;"},
+                {"after": "let path = entry.path();", "proof": """let ghost pg__ = path;
+proof {
+    let t = reader.taken@;
+    assert(t == tk__.push(path));
+    assert(t + reader.rest@ =~= dir_entries(dir)) by { assert(tk__ + (seq![path] + reader.rest@) =~= t + reader.rest@); }
+    assert forall|p: PathBuf| t.contains(p) <==> (tk__.contains(p) || p == path) by {
+        if tk__.contains(p) { let j = choose|j: int| 0 <= j < tk__.len() && tk__[j] == p; assert(t[j] == p); }
+        if p == path { assert(t[t.len() - 1] == p); }
+        if t.contains(p) { let j = choose|j: int| 0 <= j < t.len() && t[j] == p; if j < tk__.len() { assert(tk__[j] == p); } }
+    }
+}"""},
+                {"after": "out.push(path);", "proof": """proof {
+    assert forall|p: PathBuf| out@.contains(p) <==> (out0__.contains(p) || p == path) by {
+        if out0__.contains(p) { let j = choose|j: int| 0 <= j < out0__.len() && out0__[j] == p; assert(out@[j] == p); }
+        if p == path { assert(out@[out0__.len() as int] == p); }
+        if out@.contains(p) { let j = choose|j: int| 0 <= j < out@.len() && out@[j] == p; if j < out0__.len() { assert(out0__[j] == p); } }
+    }
+}"""},
+                {"after": "out.push(path);\n        }", "proof": """proof {
+    let t = reader.taken@;
+    assert forall|p: PathBuf| #[trigger] out@.contains(p) implies t.contains(p) && !is_dir_spec(p) by {
+        if out0__.contains(p) { assert(tk__.contains(p) && !is_dir_spec(p)); assert(t.contains(p)); }
+    }
+    assert forall|p: PathBuf| #[trigger] t.contains(p) && !is_dir_spec(p) implies out@.contains(p) by {
+        if tk__.contains(p) { assert(out0__.contains(p)); if is_dir_spec(pg__) { assert(out@ == out0__); } }
+        else { assert(p == pg__); assert(out@.contains(pg__)); }
+    }
+    tk__ = t;
+}"""},
+                {"after": "out.sort();", "at": "before", "proof": "proof { assert(reader.taken@ =~= dir_entries(dir)); }"}],
+}
+
+SPEC = {
+    "props": ["C19", "C12"],
+    "header_rewrites": [("R32", r"\basync fn\b", "fn"), ("R9", r"io::Result<Vec<PathBuf>>", "Result<Vec<PathBuf>, IoError>")],
+    "rewrites": [("R32", r"\s*\.await\b", ""), ("R44", r"!path\.is_dir\(\)", "!shim_path_is_dir(&path)"), ("R44", r"out\.sort\(\);", "shim_sort_paths(&mut out);"), ("R24", None)],
+    "contract": """    ensures
+        // C19 / C12: every entry of the directory that is not itself a directory is listed (so that an unreadable one makes the load fail), nothing else is, in sorted order
+        r is Ok ==> forall|p: PathBuf| r->Ok_0@.contains(p) <==> (dir_entries(dir).contains(p) && !is_dir_spec(p)), // [C19:every_file_of_a_configured_directory_is_loaded_or_the_load_fails]
+        r is Ok ==> paths_sorted(r->Ok_0@), // [C12:directory_files_applied_in_sorted_order]""",
+    "loops": {"0": {"kw": "while", "spec": """        invariant
+            reader.taken@ + reader.rest@ == dir_entries(dir),
+            forall|p: PathBuf| #[trigger] out@.contains(p) ==> reader.taken@.contains(p) && !is_dir_spec(p),
+            forall|p: PathBuf| #[trigger] reader.taken@.contains(p) && !is_dir_spec(p) ==> out@.contains(p),
+        decreases reader.rest@.len(),
+""", "entry": "let ghost out0__ = out@;"}},
+    "anchors": [{"after": "let path = entry.path();", "proof": """let ghost pg__ = path;
+proof {
+    let t = reader.taken@; let t0 = t.drop_last();
+    assert(t.last() == path);
+    assert(t0.push(path) =~= t);
+    assert(t + reader.rest@ =~= dir_entries(dir)) by { assert(t0 + (seq![path] + reader.rest@) =~= t + reader.rest@); }
+    assert forall|p: PathBuf| t.contains(p) <==> (t0.contains(p) || p == path) by {
+        if t0.contains(p) { let j = choose|j: int| 0 <= j < t0.len() && t0[j] == p; assert(t[j] == p); }
+        if p == path { assert(t[t.len() - 1] == p); }
+        if t.contains(p) { let j = choose|j: int| 0 <= j < t.len() && t[j] == p; if j < t0.len() { assert(t0[j] == p); } }
+    }
+}"""},
+                {"after": "out.push(path);", "proof": """proof {
+    assert forall|p: PathBuf| out@.contains(p) <==> (out0__.contains(p) || p == path) by {
+        if out0__.contains(p) { let j = choose|j: int| 0 <= j < out0__.len() && out0__[j] == p; assert(out@[j] == p); }
+        if p == path { assert(out@[out0__.len() as int] == p); }
+        if out@.contains(p) { let j = choose|j: int| 0 <= j < out@.len() && out@[j] == p; if j < out0__.len() { assert(out0__[j] == p); } }
+    }
+}"""},
+                {"after": "out.sort();", "at": "before", "proof": "proof { assert(reader.taken@ =~= dir_entries(dir)); }"}],
+}
+
+SPEC = {
+    "props": ["C19", "C12"],
+    "header_rewrites": [("R32", r"\basync fn\b", "fn"), ("R9", r"io::Result<Vec<PathBuf>>", "Result<Vec<PathBuf>, IoError>")],
+    "rewrites": [("R32", r"\s*\.await\b", ""), ("R44", r"!path\.is_dir\(\)", "!shim_path_is_dir(&path)"), ("R44", r"out\.sort\(\);", "shim_sort_paths(&mut out);"), ("R24", None)],
+    "contract": """    ensures
+        // C19 / C12: every entry of the directory that is not itself a directory is listed (so that an unreadable one makes the load fail), nothing else is, in sorted order
+        r is Ok ==> forall|p: PathBuf| r->Ok_0@.contains(p) <==> (dir_entries(dir).contains(p) && !is_dir_spec(p)), // [C19:every_file_of_a_configured_directory_is_loaded_or_the_load_fails]
+        r is Ok ==> paths_sorted(r->Ok_0@), // [C12:directory_files_applied_in_sorted_order]""",
+    "loops": {"0": {"kw": "while", "spec": """        invariant
+            forall|p: PathBuf| out@.contains(p) <==> (dir_entries(dir).contains(p) && !reader.rest@.contains(p) && !is_dir_spec(p)) || (out@.contains(p) && reader.rest@.contains(p) && !is_dir_spec(p) && dir_entries(dir).contains(p)),
+            forall|p: PathBuf| reader.rest@.contains(p) ==> dir_entries(dir).contains(p),
+            forall|p: PathBuf| dir_entries(dir).contains(p) && !is_dir_spec(p) ==> out@.contains(p) || reader.rest@.contains(p),
+            forall|p: PathBuf| out@.contains(p) ==> dir_entries(dir).contains(p) && !is_dir_spec(p),
+        decreases reader.rest@.len(),
+""", "entry": "let ghost rest0__ = reader.rest@; let ghost out0__ = out@;"}},
+    "anchors": [{"after": "let path = entry.path();", "proof": """proof {
+    assert(rest0__[0] == path);
+    assert forall|p: PathBuf| rest0__.contains(p) implies p == path || reader.rest@.contains(p) by {
+        let j = choose|j: int| 0 <= j < rest0__.len() && rest0__[j] == p;
+        if j > 0 { assert(reader.rest@[j - 1] == p); }
+    }
+    assert forall|p: PathBuf| reader.rest@.contains(p) implies rest0__.contains(p) by {
+        let j = choose|j: int| 0 <= j < reader.rest@.len() && reader.rest@[j] == p;
+        assert(rest0__[j + 1] == p);
+    }
+}"""},
+                {"after": "out.push(path);", "proof": """proof {
+    assert forall|p: PathBuf| out@.contains(p) <==> (out0__.contains(p) || p == path) by {
+        if out0__.contains(p) { let j = choose|j: int| 0 <= j < out0__.len() && out0__[j] == p; assert(out@[j] == p); }
+        if p == path { assert(out@[out0__.len() as int] == p); }
+        if out@.contains(p) { let j = choose|j: int| 0 <= j < out@.len() && out@[j] == p; if j < out0__.len() { assert(out0__[j] == p); } }
+    }
+}"""}],
+}
+
 SPEC = {
     "props": ["C19", "C12"],
     "header_rewrites": [("R32", r"\basync fn\b", "fn")],
@@ -137,10 +290,20 @@ def build(G):
     F = G.src(FS)
     G.top_fn(F, "load_zone_configuration", {"load_zone_configuration": dict(SPEC, depub=True)})
     G.raw("} // verus!")
+    G.raw("mod listing { use super::*; verus! {")
+    G.raw(DIR_STANDINS, ("spec", "directory stand-ins"))
+    from units.upstream_filter import _r24
+    ds = dict(DIR_SPEC)
+    ds["rewrites"] = [r if r[0] != "R24" else ("R24", _r24) for r in DIR_SPEC["rewrites"]]
+    G.top_fn(F, "get_files_from_dir", {"get_files_from_dir": ds})
+    G.raw("} }")
+    G.raw("verus! {")
+    G.raw("} // verus!")
     G.raw("fn main() {}")
 
 
 CANARIES = [
+    {"name": "only_regular_files_are_listed", "file": FS, "old": "        if !path.is_dir() {", "new": "        if path.is_file() {"},
     {"name": "unreadable_hosts_file_ignored", "file": FS, "old": "            Err(error) => {\n                tracing::warn!(?path, ?error, \"could not read hosts file\");\n                is_error = true;\n            }", "new": "            Err(error) => {\n                tracing::warn!(?path, ?error, \"could not read hosts file\");\n            }"},
     {"name": "partial_configuration_returned_on_error", "file": FS, "old": "    if is_error {\n        None\n    } else {", "new": "    if is_error && zone_file_paths.is_empty() {\n        None\n    } else {"},
     {"name": "unlistable_zone_directory_ignored", "file": FS, "old": "                tracing::warn!(?path, ?error, \"could not read zone directory\");\n                is_error = true;", "new": "                tracing::warn!(?path, ?error, \"could not read zone directory\");"},
